@@ -266,6 +266,17 @@ def check_geoms(spec, ctx):
         ctx.fail("have_temporal_overlap not symmetric", spec, None, None, kind="symmetry")
     if bool(geometry.have_frequency_overlap(g2, g1, **kwc)) != bool(got_f):
         ctx.fail("have_frequency_overlap not symmetric", spec, None, None, kind="symmetry")
+    # a copy of g1 moved in time (derived from the object that was just measured) is judged by its own coordinates
+    from vf.oracles.shp import shift_spec_time
+
+    dt = spec["g2"]["meta"]["ts"] * 4.0
+    moved = shift_spec_time(g1.type, g1.coordinates, dt)
+    h1 = g1.model_copy(update={"coordinates": moved})
+    hb = ref_bounds(g1.type, moved)
+    exp_m, _ = exact_overlap((hb[0], hb[2]), (b2[0], b2[2]), **kw)
+    got_m = geometry.operations.have_temporal_overlap(h1, g2, **kwc)
+    if bool(got_m) != exp_m:
+        ctx.fail(f"have_temporal_overlap on a copy of {g1.type} moved by {dt} s = {got_m}, its own time extent {hb[0], hb[2]} vs {b2[0], b2[2]} gives {exp_m}", spec, got_m, exp_m, kind="stale_bounds")
 
 
 @st.composite
@@ -345,6 +356,10 @@ def check_clip(spec, ctx):
         )
     if got_default is not None and bool(got_default) != exp:
         ctx.fail("is_in_clip default minimum differs from minimum_overlap=0", spec, got_default, exp, kind="default")
+    # a clip derived from the one just used (moved far away) no longer contains the geometry
+    far = clip.model_copy(update={"start_time": clip.start_time + 1e7, "end_time": clip.end_time + 1e7})
+    if bool(geometry.is_in_clip(g, far, minimum_overlap=m)) and b[2] < clip.start_time + 1e7:
+        ctx.fail("is_in_clip is True for a clip moved 1e7 s away from the geometry", spec, True, False, kind="stale_clip")
 
 
 SUBS = [
